@@ -16,6 +16,7 @@ from mc.ref import sphere
 ID = 'C01'
 TECHNIQUE = 'bounded-exhaustive enumeration of grid configurations x every modal basis vector through the real transforms, entrywise vs reference harmonics / quadrature theory'
 ASSUMPTIONS = [
+    'call histories: every sequence up to the depth bound over the listed Grid operations; deeper histories and other operations are not covered',
     'scipy.special.assoc_legendre_p_all (norm=True) and numpy leggauss as the independent definition of the harmonics',
     'quadrature theory for the resolution predicate: Gauss exact to degree 2n-1, interpolatory equiangular rules to degree n-1, trapezoid in longitude for m+m\' < nlon',
     'linearity: the matrices obtained from the unit vectors determine the transforms on all fields of each enumerated grid (superpositions are checked on the palette)',
@@ -34,7 +35,8 @@ def bounds(tier):
   return dict(shapes='with_wavenumbers(M<=%d, linear|quadratic|cubic) + construct(k<=6,n<=6) + 4 hand-picked' % (8 if tier == 'quick' else 16),
               spacings=list(harness.SPACINGS), implementations='real + fast(base_shape_multiple 1..4 x stacked x reverse)',
               radii=[1.0, 2.5], offsets=[0.0, 0.3], leading_axes=['(n,)', '(1,n)', '(2,n/2) or (3,n/3)'],
-              factory_grids=FACTORY if tier == 'thorough' else FACTORY[:3] + FACTORY[10:12])
+              factory_grids=FACTORY if tier == 'thorough' else FACTORY[:3] + FACTORY[10:12],
+              call_histories='every sequence of <= %d calls over %d Grid operations on one shared Grid object, 2 shapes x spacings x {real, padded fast} x radius {1, 2.5}; plus interleaved calls on three live Grid objects' % (2 if tier == 'quick' else 3, len(HISTORY_OPS)))
 
 
 def units(tier, seed):
@@ -46,6 +48,13 @@ def units(tier, seed):
   names = FACTORY if tier == 'thorough' else FACTORY[:3] + FACTORY[10:12]
   for n in names:
     us.append(dict(kind='factory', name=n))
+  for shape in ((3, 4, 10, 5), (4, 5, 13, 7)):
+    for sp in (('gauss', 'equiangular') if tier == 'quick' else harness.SPACINGS):
+      for impl in ('real', ('fast', 4, True, False)) + ((('fast', 1, False, True),) if tier == 'thorough' else ()):
+        for radius in (1.0, 2.5):
+          if tier == 'quick' and shape[0] == 4 and (sp != 'gauss' or radius == 1.0):
+            continue
+          us.append(dict(kind='history', shape=list(shape), spacing=sp, impl=impl, radius=radius, depth=2 if tier == 'quick' else 3))
   return us
 
 
@@ -232,8 +241,92 @@ def _factory_unit(unit, rec):
   rec.close(w.sum(), 4 * np.pi, scale=4 * np.pi, site='factory_weights_sum_4pi', key=key)
 
 
+HISTORY_OPS = ('to_nodal', 'to_modal', 'integrate', 'quadrature_weights', 'laplacian', 'inverse_laplacian', 'd_dlon', 'cos_lat_d_dlat',
+               'sec_lat_d_dlat_cos2', 'clip_wavenumbers', 'cos_lat_grad', 'div_cos_lat', 'mask')
+
+
+def _history_unit(unit, rec):
+  """Explicit-state search over HISTORIES of calls on one shared Grid object.  The Grid caches its basis matrices,
+  weights, eigenvalues and recurrence coefficients (cached_property / module-level lru_cache returning shared mutable
+  arrays), so "analysis inverts synthesis" and the integral identity must hold after ANY sequence of earlier calls,
+  not only on a freshly built grid.  Every call sequence up to the depth bound over the operation alphabet is
+  executed on a fresh Grid object; the output of every call must be bit-identical to the output of the same call made
+  first on a fresh grid (hidden-state freedom), and the probe identities (round trip, integral == r^2 sqrt(4pi) x00)
+  are evaluated in the state reached at the end of every sequence."""
+  import jax.numpy as jnp
+  shape = tuple(unit['shape']); sp = unit['spacing']; impl = unit['impl']; radius = unit['radius']
+  impl = impl if isinstance(impl, str) else tuple(impl)
+  M, L, nlon, nlat = shape
+  tag = ['history', list(shape), sp, _tag(impl), radius]
+
+  def build():
+    return harness.make_grid(shape, sp, impl, radius=radius)
+  g0 = build()
+  ms, ns = g0.modal_shape, g0.nodal_shape
+  gm = np.asarray(g0.mask, dtype=float)
+  xm = np.cos(1.0 + 0.37 * np.arange(int(np.prod(ms)))).reshape(ms) * gm
+  xm[..., L - 1:] = 0.0                         # band-limited probe below the top total wavenumber
+  xm = jnp.asarray(np.stack([xm, np.flip(xm, 0) * gm]))
+  xn = jnp.asarray(np.sin(0.3 + 0.11 * np.arange(2 * int(np.prod(ns)))).reshape((2,) + ns))
+
+  def call(g, op):
+    if op == 'to_nodal':
+      return g.to_nodal(xm)
+    if op == 'to_modal':
+      return g.to_modal(xn)
+    if op == 'integrate':
+      return g.integrate(xn)
+    if op == 'quadrature_weights':
+      return g.quadrature_weights
+    if op == 'mask':
+      return g.mask
+    if op in ('cos_lat_grad',):
+      return jnp.stack(g.cos_lat_grad(xm))
+    if op == 'div_cos_lat':
+      return g.div_cos_lat((xm, xm[::-1]))
+    return getattr(g, op)(xm)
+  first = {op: np.array(call(build(), op)) for op in HISTORY_OPS}
+  x00 = np.asarray(harness.to_real_layout(np.asarray(xm), shape, impl))[:, 0, 0]
+  r = 1.0 if radius is None else radius
+  seqs = [()]
+  frontier = [()]
+  for _ in range(unit['depth']):
+    frontier = [s + (op,) for s in frontier for op in HISTORY_OPS]
+    seqs += frontier
+  resolved = sp == 'gauss' and 2 * (L - 2) <= 2 * nlat - 1 and 2 * (M - 1) < nlon
+  for seq in seqs:
+    key = ('history', tag, list(seq))
+    g = build()
+    outs = []
+    for pos, op in enumerate(seq):
+      out = np.array(call(g, op))
+      outs.append(out)
+      rec.exact(out, first[op], site='call_result_independent_of_earlier_calls', key=key, sig={'op': op, 'after': list(seq[:pos])[-2:]})
+    # probe identities in the reached state
+    nod = g.to_nodal(xm)
+    back = np.asarray(g.to_modal(nod))
+    integ = np.asarray(g.integrate(nod))
+    rec.case(key, transitions=len(seq) + 3, outcome=back.tobytes() + integ.tobytes(), nontrivial=len(seq) > 0,
+             sample={'config': tag, 'calls': list(seq)} if len(seq) in (0, unit['depth']) else None)
+    rec.exact(np.asarray(nod), first['to_nodal'], site='synthesis_independent_of_history', key=key)
+    if resolved:
+      rec.close(back, np.asarray(xm), scale=1.0, site='roundtrip_identity_after_history', key=key)
+      rec.close(integ, r ** 2 * harness.SQRT4PI * x00, scale=r ** 2 * harness.SQRT4PI, site='integral_identity_after_history', key=key)
+  # two Grid objects alive at once (same configuration, and same configuration with another radius) share the module-level
+  # caches: interleaved calls must not influence each other
+  other_r = 2.5 if r == 1.0 else 1.0
+  ga, gb, gc = build(), build(), harness.make_grid(shape, sp, impl, radius=other_r)
+  key = ('history_two_grids', tag)
+  for op in HISTORY_OPS:
+    call(gc, op); call(gb, op)
+    rec.exact(np.array(call(ga, op)), first[op], site='call_result_independent_of_other_grid_objects', key=key, sig={'op': op})
+  rec.case(key, transitions=3 * len(HISTORY_OPS), outcome=None)
+
+
 def work(unit, rec):
   if unit['kind'] == 'grid':
     _grid_unit(unit, rec)
+  elif unit['kind'] == 'history':
+    _history_unit(unit, rec)
   else:
     _factory_unit(unit, rec)
